@@ -132,6 +132,13 @@ def make_layout(rng, chain, coin, assign="contiguous", nfiles=3, gaps="none", nu
         while dnum in names:
             dnum += 1
         extra_files.append((default_name(dnum, 5), None))  # a directory named like a blk file
+        # symbolic links that lead nowhere: an archive disk that is gone, a relative link, a loop - named by no record
+        lnum = dnum + 1
+        while lnum in names:
+            lnum += 1
+        extra_files.append((default_name(lnum, 5), ("symlink", "/nonexistent-archive-disk/blocks/" + default_name(lnum, 5))))
+        extra_files.append(("newest.dat", ("symlink", names[max(names)])))
+        extra_files.append(("loop.dat", ("symlink", "loop.dat")))
     index_opts = dict(index_style or {})
     if rng.random() < 0.5:
         index_opts["vary_records"] = rng.getrandbits(32)     # record fields as nodes of different ages write them
